@@ -333,13 +333,32 @@ def _mut_key_names_raw():
     vp.process_dict_breadth_first = process_dict_breadth_first
 
 
-MUTANTS = {"dict_unguarded": _mut_dict_unguarded, "str_unguarded": _mut_str_unguarded, "key_names_raw": _mut_key_names_raw}
+def _mut_shared_table():
+    from deep.processor.context.snapshot_action import SnapshotActionContext
+    from deep.processor.context.action_context import ActionContext
+    orig_init = ActionContext.__init__
+
+    def __init__(self, parent, action):
+        orig_init(self, parent, action)
+        self.var_cache = parent.var_cache
+    ActionContext.__init__ = __init__
+    import deep.processor.frame_collector as fc
+    orig_collect = fc.FrameCollector.collect
+
+    def collect(self, var_lookup, var_cache):
+        shared = self._FrameCollector__source.trigger_context.vars
+        return orig_collect(self, shared, var_cache)
+    fc.FrameCollector.collect = collect
+
+
+MUTANTS = {"shared_table": _mut_shared_table, "dict_unguarded": _mut_dict_unguarded, "str_unguarded": _mut_str_unguarded, "key_names_raw": _mut_key_names_raw}
 
 CONDITIONS = [
-    dict(fn="total", cubes={"quick": ["kind == %d and ntp == 1 and conv == %d" % (k, 0 if k in (31, 32) else 1) for k in range(35)],
+    dict(fn="total", cubes={"quick": ["kind == %d and ntp == %d and conv == %d" % (k, 1 + (k % 3), 0 if k in (31, 32) else 1) for k in range(35)] +
+                                     ["kind == %d and ntp == %d and conv == 1" % (k, n) for k in (0, 8, 16, 19) for n in (1, 2, 3)],
                             "thorough": ["kind == %d and ntp == %d and conv == %d" % (k, n, 0 if k in (31, 32) else 1) for k in range(35) for n in (1, 2, 3)]},
          twins=["reach", "mutant:dict_unguarded@kind == 0 and ntp == 1 and conv == 1", "mutant:str_unguarded@kind == 17 and ntp == 1 and conv == 1",
-                "mutant:key_names_raw@kind == 8 and ntp == 1 and conv == 1"],
+                "mutant:key_names_raw@kind == 8 and ntp == 1 and conv == 1", "mutant:shared_table@kind == 0 and ntp == 2 and conv == 1"],
          bounds="35 offending-value kinds x 5 positions (local, list element, dict value, object attribute, watch-only) x 6 exception classes for the hostile kinds; "
-                "1 tracepoint on the line (thorough: 1-3, the last with a watch); real protobuf conversion + serialisation of every snapshot"),
+                "1-3 tracepoints on the line, the last with a watch (quick: one tracepoint count per kind, all three for 4 kinds; thorough: all); real protobuf conversion + serialisation of every snapshot"),
 ]
